@@ -258,7 +258,9 @@ func ruleBoundScoped(c *Ctx, only func(*Func) bool) {
 			}
 		}
 	}
-	c.R.Floor("R-BOUND/site", 40)
+	if only == nil {
+		c.R.Floor("R-BOUND/site", 40)
+	}
 }
 
 // timerFromField: the duration expression of op's timer arm is a selection of
